@@ -29,6 +29,7 @@ def run(ck):
     q = ck.quick()
     # L1: the complete-greedy machine conserves items at every step and never ends without a partition
     models.cg_mc(ck, 4 if q else 5, 3, 3, models.SW_SOME if q else models.SW_ALL, False, ["ResultValid", "ResultNotNone", "Conservation", "BestConsistent"])
+    models.ckk_mc(ck, 4 if q else 5, 3, 3, ["Conservation", "ResultValid", "ResultNotNone"])
     P = scope.p_scope(ck, 5, 5, 4) if q else scope.p_scope(ck, 6, 6, 6)
     ck.exhaustive = True
     groups = []
